@@ -24,12 +24,17 @@ from .. import core
 from .. import stabutil as su
 from .. import stabapi_cases as sa    # API stage: constructors, strings, standard form, composite gates
 from .. import stabseq_cases as sq    # sequence stage: many operations on ONE long-lived object / engine
+from ..gen import stabgates           # Tie B: gate / row-product semantics regenerated from the source AST
 
-LEAN_TARGETS = ["SqVerif.Props.C13", "SqVerif.Props.C13Api"]
-PROPS_FILE = ["SqVerif/Props/C13Gates.lean", "SqVerif/Props/C13Gauss.lean", "SqVerif/Props/C13Api.lean"]
+LEAN_TARGETS = ["SqVerif.Props.C13", "SqVerif.Props.C13Api", "SqVerif.Props.C13Gen"]
+PROPS_FILE = ["SqVerif/Props/C13Gates.lean", "SqVerif/Props/C13Gauss.lean", "SqVerif/Props/C13Api.lean",
+              "SqVerif/Props/C13Gen.lean"]
 DRIVE_TARGETS = ["SqVerif.Drive.Stab", "SqVerif.Drive.StabApi"]
 TRUSTED = [
     "model Stab.lean hand-written from stabilizer_states.py:201-211,262-507,531-701; tied by differential execution (this check)",
+    "gates and row product (stabilizer_states.py:317-374,531-701) additionally tied by translation: harness/gen/stabgates.py "
+    "(Python ast; trusted for the row-wise NumPy meaning of its idiom set: column views, np.logical_*, masked assignment, "
+    "column swap) regenerates Gen/StabGates.lean on every run and Props/C13Gen.lean proves it equal to the model",
     "NumPy linear algebra of the reference oracle (complex128, tolerance 1e-8; stabilizer amplitudes are exact multiples of 2^(-k/2))",
     "input states are produced by a symbolic Clifford simulator whose tables are derived numerically from the gate matrices",
     "model StabApi.lean hand-written from stabilizer_states.py:87-260,314-315,420-429,447-471,509-529,628-634 (graph constructor as fixed by fix-graph-node-order); "
@@ -41,6 +46,15 @@ ASSUMPTIONS = [
     "API stage: graphs are simple undirected networkx.Graph objects on the nodes 0..n-1, n >= 1 (qubit i = node i); constructor data are "
     "(nested) lists / tuples / arrays of 0/1 or of str; objects of other Python types are outside the model",
 ]
+
+
+def gen(ctx):
+    """Tie B: regenerate lean/SqVerif/Gen/StabGates.lean from the tree under test.  The obligations over it are
+    the theorems of Props/C13Gen.lean (counted by the audit, hence 0 here)."""
+    tab = stabgates.generate(core.REPO, core.LEAN_DIR)
+    ctx.stabgates_table = tab
+    return {"obligations": 0, "file": stabgates.OUT, "changed": tab["changed"], "methods": tab["methods"],
+            "definitions_under_obligation": tab["obligations"], "unrecognised": tab["unrecognised"]}
 
 
 def gate_cases(n, rows, via="state"):
